@@ -26,8 +26,9 @@
 (*      oint x^a y^b n_x ds         = ex(a,b) * a! b! / (a+b+1)!              *)
 (* (N_E = (Qy-Py, -(Qx-Px)) is the outward normal times the edge length of a  *)
 (* boundary edge of a counter-clockwise element).  The factorials are applied *)
-(* by the harness in unbounded integers; with the table below and MaxDeg = 5  *)
-(* every intermediate stays below 2^31 (TLC raises an error on overflow).     *)
+(* by the harness in unbounded integers; with the table below every           *)
+(* intermediate stays below 2^31 for MaxDeg <= 7 (TLC raises an error on      *)
+(* overflow; MaxDeg = 8 does overflow).  Quick tier: MaxDeg = 6, thorough: 7. *)
 (*                                                                            *)
 (* One action per step of the binding: PickMesh (mesh + cyclic shift, the     *)
 (* state in which the mesh facts are emitted) and EvalMono (one monomial on   *)
@@ -35,7 +36,7 @@
 (* geometry, on EVERY lattice state.                                          *)
 EXTENDS Integers, Sequences, FiniteSets
 
-CONSTANT MaxDeg        \* monomials x^a y^b with a + b <= MaxDeg (5 is 32-bit safe for this table)
+CONSTANT MaxDeg        \* monomials x^a y^b with a + b <= MaxDeg (<= 7 is 32-bit safe for this table)
 
 VARIABLE st            \* [k: none|mesh|mono, m: mesh name, s: shift 0..3, bnd, a, b, vs, hasax, ax, ex, ey]
 vars == <<st>>
